@@ -47,7 +47,7 @@ pub fn main(rest: &[String]) -> i32 {
                     variants.push(occ | (rng.gen::<u64>() & !mask));
                 }
                 for (vi, o) in variants.iter().enumerate() {
-                    let res = std::panic::catch_unwind(|| {
+                    let res = crate::unwind_safe(|| {
                         let got = if rook { tables::rook_attacks(sq, Bitboard::new(*o)) } else { tables::bishop_attacks(sq, Bitboard::new(*o)) };
                         let (idx, len) = tables::verif_index(rook, sq, Bitboard::new(*o));
                         (got.as_u64(), idx, len)
@@ -76,7 +76,7 @@ pub fn main(rest: &[String]) -> i32 {
                 n_leap += 1;
                 let want = bb(&r["a"]);
                 let white = r["c"].as_u64().unwrap_or(0) == 0;
-                let got = std::panic::catch_unwind(|| {
+                let got = crate::unwind_safe(|| {
                     match t {
                         "kn" => tables::knight_attacks(sq),
                         "kg" => tables::king_attacks(sq),
@@ -96,7 +96,7 @@ pub fn main(rest: &[String]) -> i32 {
                 n_bt += 1;
                 let want = bb(&r["a"]);
                 let b = Square::from_index(r["b"].as_u64().unwrap() as u8);
-                let Ok(got) = std::panic::catch_unwind(|| tables::between(sq, b).as_u64()) else {
+                let Ok(got) = crate::unwind_safe(|| tables::between(sq, b).as_u64()) else {
                     mism.push(json!({"t": "bt", "s": s, "b": r["b"], "what": "panic"}));
                     continue;
                 };
